@@ -321,6 +321,122 @@ pub fn arith_case(k_wish: u32, seed: u64) -> Result<InnerCase, String> {
 }
 
 // ---------------------------------------------------------------------------------------------
+// Inner circuit 3: public inputs read at non-zero rotations (a shape the stdlib never produces)
+// ---------------------------------------------------------------------------------------------
+
+/// Columns [committed instance, instance, advice, fixed selector]; gate
+/// `q * (a - Σ_j c_j · pi[rot_j])` with `(rot_j, c_j)` fixed by the variant `V`.
+#[derive(Clone, Debug, Default)]
+pub struct RotInner<const V: u8> {
+    pi: Value<Vec<F>>,
+}
+
+pub fn rot_terms(v: u8) -> Vec<(i32, u64)> {
+    match v {
+        0 => vec![(0, 1), (1, 2)],
+        1 => vec![(-1, 3), (0, 1), (2, 5)],
+        _ => vec![(-2, 7), (1, 2), (3, 11)],
+    }
+}
+
+impl<const V: u8> Circuit<F> for RotInner<V> {
+    type Config = (
+        midnight_proofs::plonk::Column<midnight_proofs::plonk::Instance>,
+        midnight_proofs::plonk::Column<midnight_proofs::plonk::Advice>,
+        midnight_proofs::plonk::Selector,
+    );
+    type FloorPlanner = SimpleFloorPlanner;
+    type Params = ();
+
+    fn without_witnesses(&self) -> Self {
+        Self::default()
+    }
+
+    fn configure(meta: &mut ConstraintSystem<F>) -> Self::Config {
+        use midnight_proofs::{plonk::Expression, poly::Rotation};
+        let _committed = meta.instance_column();
+        let inst = meta.instance_column();
+        let a = meta.advice_column();
+        let q = meta.selector();
+        meta.create_gate("rotated public inputs", |m| {
+            let mut e = m.query_advice(a, Rotation::cur());
+            for (rot, c) in rot_terms(V) {
+                e = e - m.query_instance(inst, Rotation(rot)) * Expression::Constant(F::from(c));
+            }
+            midnight_proofs::plonk::Constraints::with_selector(q, vec![e])
+        });
+        (inst, a, q)
+    }
+
+    fn synthesize(&self, config: Self::Config, mut layouter: impl Layouter<F>) -> Result<(), Error> {
+        let (_, a, q) = config;
+        layouter.assign_region(
+            || "rot",
+            |mut region| {
+                for row in 0..ROT_ROWS {
+                    q.enable(&mut region, row)?;
+                    let v = self.pi.as_ref().map(|pi| {
+                        rot_terms(V).iter().fold(F::ZERO, |acc, (rot, c)| {
+                            let idx = row as i64 + *rot as i64;
+                            // rows before 0 wrap to the blinding area only for row + rot < 0, which
+                            // ROT_FIRST excludes; beyond the public inputs the column is zero
+                            let x = if idx >= 0 && (idx as usize) < pi.len() { pi[idx as usize] } else { F::ZERO };
+                            acc + x * F::from(*c)
+                        })
+                    });
+                    region.assign_advice(|| "a", a, row, || v)?;
+                }
+                Ok(())
+            },
+        )
+    }
+}
+
+/// rows on which the gate is enabled: `ROT_FIRST..ROT_ROWS` would avoid negative wrap-around, but
+/// row 0 with a negative rotation reads the last row of the column (blinding area of an instance
+/// column is zero), so every row from 0 is sound to enable.
+const ROT_ROWS: usize = 12;
+
+fn rot_case_v<const V: u8>(k: u32, seed: u64) -> Result<InnerCase, String> {
+    let mut rng = ChaCha8Rng::seed_from_u64(seed);
+    let params = params_for(k);
+    let vk = keygen_vk_with_k::<F, CS, _>(params, &RotInner::<V>::default(), k).map_err(|e| format!("keygen_vk k={k}: {e:?}"))?;
+    let pk = keygen_pk(vk.clone(), &RotInner::<V>::default()).map_err(|e| format!("{e:?}"))?;
+    let n = rng.gen_range(2..=6usize);
+    let pi: Vec<F> = (0..n).map(|_| F::random(&mut rng)).collect();
+    let mut t = CircuitTranscript::<PS>::init();
+    create_proof::<F, CS, CircuitTranscript<PS>, RotInner<V>>(
+        params,
+        &pk,
+        &[RotInner::<V> { pi: Value::known(pi.clone()) }],
+        1,
+        &[&[&[], &pi]],
+        &mut rng,
+        &mut t,
+    )
+    .map_err(|e| format!("create_proof: {e:?}"))?;
+    let proof = t.finalize();
+    let layout = layout_of(&vk, &pi, &proof)?;
+    Ok(InnerCase {
+        name: format!("rot{V}-instance-rotations/k{k}"),
+        k,
+        lookups: vk.cs().lookups().len(),
+        vk,
+        pi,
+        proof,
+        layout,
+    })
+}
+
+pub fn rot_case(variant: u8, k: u32, seed: u64) -> Result<InnerCase, String> {
+    match variant % 3 {
+        0 => rot_case_v::<0>(k, seed),
+        1 => rot_case_v::<1>(k, seed),
+        _ => rot_case_v::<2>(k, seed),
+    }
+}
+
+// ---------------------------------------------------------------------------------------------
 // Off-circuit side
 // ---------------------------------------------------------------------------------------------
 
@@ -353,6 +469,105 @@ pub fn offcircuit(vk: &Vk, k: u32, pi: &[F], proof: &[u8]) -> Result<OffCircuit,
         vk_len,
         check,
     })
+}
+
+/// Off-circuit folding of accumulators that come from *different* verifying keys (the fixed-base
+/// names differ, only "-G" is shared): `Accumulator::accumulate` of any sub-list must satisfy the
+/// pairing invariant iff every member does, before and after `collapse`, in any order.
+pub fn cross_vk_accumulation(seed: u64, rng: &mut ChaCha8Rng, rounds: usize, rep: &mut Report) {
+    use std::collections::BTreeMap;
+    // inner proofs of four different circuits over ONE structured reference string (same k)
+    let built = catch_any(|| {
+        let a = arith_case(9, seed)?;
+        let k = a.k;
+        Ok::<_, String>(vec![a, poseidon_case(k, seed ^ 1)?, rot_case(0, k, seed ^ 2)?, rot_case(1, k, seed ^ 3)?])
+    });
+    let cases = match built {
+        Ok(Ok(c)) => c,
+        Ok(Err(e)) => return rep.inconclusive(&format!("cross-vk accumulation: inner cases: {e}")),
+        Err(p) => return rep.inconclusive(&format!("cross-vk accumulation: inner cases panic: {} at {}", p.message, p.location)),
+    };
+    let cases = &cases[..];
+    // (accumulator, valid, label) ; names differ per case
+    let mut accs: Vec<(Accumulator<S>, bool, String)> = vec![];
+    let mut all_bases: BTreeMap<String, C> = BTreeMap::new();
+    for (ci, c) in cases.iter().enumerate() {
+        let name = format!("vk{ci}");
+        let fb = verifier::fixed_bases::<S>(&name, &c.vk);
+        all_bases.extend(fb.clone());
+        let mut variants: Vec<(Vec<F>, Vec<u8>, &str)> = vec![(c.pi.clone(), c.proof.clone(), "honest")];
+        let scalars: Vec<usize> = (0..c.layout.len()).filter(|i| c.layout[*i].kind == 'S').collect();
+        if let Some(l) = scalars.last() {
+            if let Some((pi, proof)) = corrupt(c, &WitnessKind::ProofScalar(*l)) {
+                variants.push((pi, proof, "proof-scalar+1"));
+            }
+        }
+        if let Some((pi, proof)) = corrupt(c, &WitnessKind::WrongPi(0)) {
+            variants.push((pi, proof, "wrong-inner-pi"));
+        }
+        for (pi, proof, what) in variants {
+            let mut t = CircuitTranscript::<PS>::init_from_bytes(&proof);
+            let Ok(dual) = prepare::<F, CS, CircuitTranscript<PS>>(&c.vk, &[&[C::identity()]], &[&[&pi]], &mut t) else { continue };
+            let acc = Accumulator::<S>::from_dual_msm(dual, &name, &fb);
+            let tau = params_for(c.k).s_g2().into();
+            let valid = acc.check(&tau, &fb);
+            if valid != (what == "honest") {
+                rep.count(&format!("cross-vk.member-verdict[{what}]={valid}"));
+            }
+            accs.push((acc, valid, format!("{}:{what}", c.name)));
+        }
+    }
+    let tau = params_for(cases[0].k).s_g2().into();
+    if accs.iter().filter(|a| a.1).count() < 2 {
+        rep.inconclusive("cross-vk accumulation: fewer than two valid accumulators");
+        return;
+    }
+    for round in 0..rounds {
+        let size = 2 + round % 3;
+        let want_invalid = round % 2 == 1;
+        let mut members: Vec<usize> = vec![];
+        let valid_ix: Vec<usize> = (0..accs.len()).filter(|i| accs[*i].1).collect();
+        let invalid_ix: Vec<usize> = (0..accs.len()).filter(|i| !accs[*i].1).collect();
+        for _ in 0..size {
+            members.push(valid_ix[rng.gen_range(0..valid_ix.len())]);
+        }
+        if want_invalid && !invalid_ix.is_empty() {
+            let pos = rng.gen_range(0..size);
+            members[pos] = invalid_ix[rng.gen_range(0..invalid_ix.len())];
+        }
+        let expect = members.iter().all(|i| accs[*i].1);
+        let labels: Vec<String> = members.iter().map(|i| accs[*i].2.clone()).collect();
+        for mode in ["none", "collapse-before", "collapse-after"] {
+            rep.eval();
+            rep.nontrivial(&("cross-vk", labels.clone(), mode));
+            let ms: Vec<Accumulator<S>> = members.iter().map(|i| accs[*i].0.clone()).collect();
+            let bases = all_bases.clone();
+            let got = catch_any(move || {
+                let mut ms = ms;
+                if mode == "collapse-before" {
+                    ms.iter_mut().for_each(|m| m.collapse());
+                }
+                let mut acc = Accumulator::<S>::accumulate(&ms);
+                if mode == "collapse-after" {
+                    acc.collapse();
+                }
+                acc.check(&tau, &bases)
+            });
+            match got {
+                Ok(g) if g == expect => rep.count(&format!("cross-vk.accumulate[{mode}].{}", if g { "valid" } else { "invalid" })),
+                Ok(g) => rep.violation(
+                    &format!("C20/accumulator/cross-vk-accumulate/{}", if g { "accepts-invalid-member" } else { "rejects-all-valid" }),
+                    &format!("Accumulator::accumulate over accumulators of different verifying keys checks to {g}, expected {expect} ({mode})"),
+                    json!({"members": labels, "mode": mode}),
+                ),
+                Err(p) => rep.violation(
+                    &format!("C20/accumulator/cross-vk-accumulate/panic@{}", repo_file(&p.file)),
+                    &format!("Accumulator accumulate/collapse/check panics: {}", p.message),
+                    json!({"members": labels, "mode": mode}),
+                ),
+            }
+        }
+    }
 }
 
 // ---------------------------------------------------------------------------------------------
@@ -898,7 +1113,13 @@ pub fn run_plan(cases: &[InnerCase], plan: &[RunSpec], threads: usize, rep: &mut
 pub fn replay(w: &Json) -> Result<bool, String> {
     let name = w["inner"].as_str().ok_or("inner")?;
     let k = w["inner_k"].as_u64().ok_or("inner_k")? as u32;
-    let case = if name.starts_with("poseidon") { poseidon_case(k, 0)? } else { arith_case(k, 0)? };
+    let case = if name.starts_with("poseidon") {
+        poseidon_case(k, 0)?
+    } else if let Some(v) = name.strip_prefix("rot").and_then(|r| r[..1].parse::<u8>().ok()) {
+        rot_case(v, k, 0)?
+    } else {
+        arith_case(k, 0)?
+    };
     let pi: Vec<F> = w["inner_pi"].as_array().ok_or("inner_pi")?.iter().filter_map(|s| s.as_str().and_then(unhexf)).collect();
     let proof = hex::decode(w["inner_proof"].as_str().ok_or("inner_proof")?).map_err(|e| e.to_string())?;
     let claimed: Vec<F> =
